@@ -1174,7 +1174,7 @@ class Assembler:
             recv = ''
             if '.' in ab['call']:
                 # a method call `RECV.m(args)`: the receiver expression is handed over as an argument of its own
-                recv = ab.get('recv_prefix', '') + ab['call'][:ab['call'].rindex('.')].strip() + ', '
+                recv = ab.get('recv_prefix', '') + (ab.get('recv_as') or ab['call'][:ab['call'].rindex('.')].strip()) + ', '
             closes_now = s.is_p(kb + 1, ')')
             lead = (first + ', ' if first else '') + recv
             if closes_now:
@@ -1183,6 +1183,26 @@ class Assembler:
             self.assumed.append({'function': '%s :: callee `%s` replaced by %s' % (fnname, ab['call'], ab['as']),
                                  'sha256': hashlib.sha256(ab['call'].encode()).hexdigest(), 'proved_in': None})
             self.fired.add('15c:replace-callee')
+            return
+        elif 'loop_head' in ab:
+            # a whole loop statement named by its header: `for HEAD { BODY }` is replaced by the stand-in.  With `pin = "head"`
+            # only the header is pinned -- for a loop whose BODY is lifted (23) and verified from its real text in the same unit
+            want_ = extract._tok_strings(ab['loop_head'])
+            mm_ = s.match()
+            hit_ = None
+            for (kw_, ko_) in fp.loops():
+                if [s.s(q) for q in range(kw_, ko_)] == want_:
+                    hit_ = (kw_, mm_[ko_])
+                    break
+            if hit_ is None:
+                raise ExtractError('lost anchor: no loop of fn %s reads `%s`' % (fnname, ab['loop_head']))
+            ka, kb = hit_
+            orig_ = s.text[s.t[ka][1]:s.t[kb][2]]
+            ed.replace(s.t[ka][1], s.t[kb][2], ab['as'].replace('&mut verif_journal', '&mut *verif_journal') if spec.get('journal_param') else ab['as'])
+            pinned_ = re.sub(r'\s+', ' ', ab['loop_head'] if ab.get('pin') == 'head' else orig_)
+            self.assumed.append({'function': '%s :: loop `%s` abstracted as %s' % (fnname, ab['loop_head'][:80], ab['as'].split('(')[0].strip()),
+                                 'sha256': hashlib.sha256(pinned_.encode()).hexdigest(), 'proved_in': None})
+            self.fired.add('15:abstract-expression')
             return
         elif 'whole_call' in ab:
             # the whole call expression `f( .. )` named by its callee (arguments included, whatever they are; the replaced
@@ -1209,8 +1229,36 @@ class Assembler:
                         break
                     ed.replace(s.t[kx][1], s.t[ky][2], ab['as'])
                     n_ += 1
-            ka, kb = fp.find_stmt(ab['expr'], ab.get('n', 0))
+            if '$1' in ab['expr']:
+                # an expression with ONE hole: `PREFIX $1 SUFFIX` matches PREFIX, then any balanced token run, then SUFFIX; the
+                # run's real text is substituted for `$1` in the stand-in, so it stays real text and is judged (an edit to it
+                # is decided, not a lost anchor)
+                pre_, suf_ = [x.strip() for x in ab['expr'].split('$1')]
+                ka, kp_ = fp.find_stmt(pre_, ab.get('n', 0))
+                want_ = extract._tok_strings(suf_)
+                q_ = kp_ + 1
+                mm_ = s.match()
+                kb = None
+                while q_ < fp.k_body_close:
+                    if [s.s(q_ + i_) for i_ in range(len(want_))] == want_:
+                        kb = q_ + len(want_) - 1
+                        break
+                    if s.kind(q_) == 'p' and s.s(q_) in '([{':
+                        q_ = mm_[q_] + 1
+                        continue
+                    if s.kind(q_) == 'p' and s.s(q_) in ')]};':
+                        break
+                    q_ += 1
+                if kb is None or q_ == kp_ + 1:
+                    raise ExtractError('lost anchor: statement %r (occurrence %d) not found in fn %s' % (ab['expr'], ab.get('n', 0), fnname))
+                hole_ = s.text[s.t[kp_ + 1][1]:s.t[q_ - 1][2]]
+                ab = dict(ab, **{'as': ab['as'].replace('$1', hole_)})
+                orig_pin_ = re.sub(r'\s+', ' ', pre_ + ' $1 ' + suf_)
+            else:
+                ka, kb = fp.find_stmt(ab['expr'], ab.get('n', 0))
         orig = s.text[s.t[ka][1]:s.t[kb][2]]
+        if 'expr' in ab and '$1' in ab['expr']:
+            orig = orig_pin_
         as_text = ab['as'].replace('&mut verif_journal', '&mut *verif_journal') if spec.get('journal_param') else ab['as']
         ed.replace(s.t[ka][1], s.t[kb][2], as_text)
         what = ('initializer of `let %s`' % ab['let']) if 'let' in ab else ('expression `%s`' % re.sub(r'\s+', ' ', orig)[:160])
